@@ -404,7 +404,7 @@ impl Engine for Ranges {
             }
         }
         // ---- random over u64
-        let n = if tier == Tier::Quick { 6000 } else { 120000 };
+        let n = if tier == Tier::Quick { 40000 } else { 120000 };
         for _ in 0..n {
             let builder = *rng.pick(BUILDERS);
             let lim = size_limit(builder);
